@@ -149,7 +149,9 @@ class Gen:
         self.pre_chans = []
         self.pre_ranked = []
         self.pre_masks = []
-        if r.random() < 0.4:
+        cf = getattr(self, "cfg_force", None) or {}
+        self.pre_rank_lists = []
+        if r.random() < 0.4 or "one_rank" in cf:
             name = r.choice(["#pre", "#a", "&c"])
             topic = r.choice(["-", "+" + esc("configured topic")])
             flags = "".join(c for c in "imstn" if r.random() < 0.25)
@@ -160,16 +162,22 @@ class Gen:
             pb = 0.35 if self.profile in ("join", "chanlife", "speak", "mode") else 0.15
             bans, excs, invs = pick(MASKS[:6], pb), pick(MASKS[:6], 0.1), pick(MASKS[:6], 0.1)
             ranks = [pick(NICKS, 0.2), pick(NICKS, 0.15), pick(NICKS, 0.25), pick(NICKS, 0.2), pick(NICKS, 0.25)]
-            if r.random() < 0.3:
+            if r.random() < 0.3 or cf.get("one_rank") is not None:
                 # exactly one configured rank list
                 keep = r.randrange(5)
+                if cf.get("one_rank") is not None:
+                    keep = cf["one_rank"]
                 ranks = [(x or [r.choice(NICKS)]) if i == keep else [] for i, x in enumerate(ranks)]
+            if cf.get("open"):
+                # nothing in the way of a JOIN: the scene is about what the joiner becomes
+                key, limit, bans, flags = "-", "-", [], flags.replace("i", "")
             lines.append("cfg chan %s %s %s %s %s %s %s %s %s %s %s %s %s" % (
                 esc(name), topic, esc(flags), key, limit,
                 esc_list(bans), esc_list(excs), esc_list(invs), *[esc_list(x) for x in ranks]))
             self.pre_chans.append(name)
             self.pre_ranked = sorted({n for lst in ranks[:4] for n in lst})
             self.pre_masks = bans + excs
+            self.pre_rank_lists = ranks
         return lines
 
     # ------------------------------------------------------------------ helpers
@@ -731,6 +739,30 @@ class Gen:
             L(o, "MODE %s b" % pch); L(b, "JOIN " + pch + r.choice(["", " k1"])); L(a, "JOIN " + pch + r.choice(["", " k1"]))
             L(b, "PRIVMSG %s :may I" % pch)
             L(o, "MODE %s +e %s" % (pch, m)); L(o, "MODE %s -e %s" % (pch, m)); L(b, "JOIN " + pch)
+        elif k == "pre_ranks":
+            # configured rank lists of a preconfigured channel: every listed nick gets exactly the listed ranks when it
+            # joins (first and every later time), nobody else gets any, whatever the other lists contain
+            if not self.pre_chans:
+                return
+            pch = self.pre_chans[0]
+            listed = sorted({n for lst in self.pre_rank_lists for n in lst})
+            for opn in r.sample(listed, min(len(listed), 2)) + [nb]:
+                holder = [c for c, x in self.conns.items() if x["live"] and x.get("nick") == opn]
+                if holder:
+                    o = holder[0]
+                else:
+                    o = self.new_conn()
+                    if o is None:
+                        break
+                    if self.server_pw: L(o, "PASS " + self.server_pw)
+                    L(o, "NICK " + opn); L(o, "USER pr 0 * :Pre")
+                    self.conns[o]["nick"] = opn; self.conns[o]["done"] = True
+                L(o, "JOIN %s%s" % (pch, r.choice(["", " k1", " k1"])))
+                L(o, "NAMES " + pch); L(o, "WHO " + pch)
+                if r.random() < 0.5:
+                    L(o, "PART " + pch); L(o, "JOIN %s k1" % pch); L(o, "NAMES " + pch)
+                L(o, "MODE %s +t" % pch); L(o, "TOPIC %s :mine" % pch)
+            L(a, "WHOIS " + nb)
         elif k == "list_masks":
             # list masks are normalised before they are stored, announced, COMPARED and removed: add with one spelling,
             # remove with the same short spelling / with the completed one / with another short spelling of the same mask
@@ -1080,7 +1112,7 @@ def write_ops_file(path, profile, seed, nseq, length):
 SCENE_KINDS = ["invite_key", "invite_recreate", "invite_ban", "ranks_ladder", "halfop_mode", "quota_invisible", "voice_rename",
                "wallops_rename", "flood_targets", "limit_invite", "case_twins", "kick_ranks", "secret_whois", "oper_cycle",
                "moderated_prefix", "ban_case", "rejoin_list", "topic_lock", "rename_masks", "kick_repeat", "pre_rename",
-               "invite_ranks", "late_cap", "pre_bans", "list_masks", "multi_prefix"]
+               "invite_ranks", "late_cap", "pre_bans", "list_masks", "multi_prefix", "pre_ranks"]
 REG_KINDS = ["twin", "slots", "overtaken", "taken_then_user", "pass_twice", "user_twice", "cap_mid"]
 LONG_KINDS = ["topic", "chan", "key", "nick", "kick", "away", "real"]
 BULK_KINDS = ["whowas_many", "ison_many", "bans_many", "joins_many", "invites_many", "members_many", "names_long"]
@@ -1095,12 +1127,14 @@ def write_scene_file(path, seed, reps=4):
     with open(path, "w") as f:
         for fam, kinds, prof in fams:
             for k in kinds:
-                for rep in range(reps * (3 if k == "overtaken" else 2 if fam == "reg" else 1)):
+                for rep in range(reps * (3 if k in ("overtaken", "pre_ranks") else 2 if fam == "reg" else 1)):
                     for attempt in range(60):
                         g = Gen(seed * 100003 + (zlib.crc32((fam + "/" + k).encode()) % 9973) * 41 + rep * 7 + attempt * 1009, prof)
                         g.ops, g.conns, g.chan_members, g.chan_founder, g.cur_chan = [], {}, {}, {}, None
+                        if k == "pre_ranks":
+                            g.cfg_force = {"one_rank": (rep % 5) if rep % 6 != 5 else None, "open": rep % 7 != 3}
                         cfg = g.gen_cfg()
-                        if k in ("pre_rename", "pre_bans") and not g.pre_chans:
+                        if k in ("pre_rename", "pre_bans", "pre_ranks") and not g.pre_chans:
                             continue
                         if k == "pre_bans" and rep % 2 == 0 and not g.pre_masks:
                             continue
